@@ -198,8 +198,10 @@ class NdArr:
         if self.kind == "real" and z3.is_int(val):
             val = z3.ToReal(val)
         old_term = self.cell.term
-        self.cell.term = z3.Store(self.cell.term, *(bi + [val]))
         hook = getattr(self.cell, "on_store", None)
+        if hook is not None:
+            bi, val = hook.name_operands(bi, val)        # index / value named by constants (lemma patterns must be lambda-free)
+        self.cell.term = z3.Store(self.cell.term, *(bi + [val]))
         if hook is not None:
             hook(old_term, bi, val, self.cell.term)      # ghost counting: store lemma instance
         if self.cell.nan is not None or nanval is not False:
@@ -252,6 +254,10 @@ class NdArr:
         return NdArr(shape, self.cell, imap, self.kind)
 
     def copy(self, name=None):
+        if len(self.imap) == self.cell.dims and all(e == ("dim", d, 0, 1) for d, e in enumerate(self.imap)):
+            # the whole array: z3 arrays are values, the copy is the same term in a cell of its own
+            return NdArr(self.shape, Cell(self.cell.term, self.cell.dims, self.cell.nan, name or self.cell.name + "_copy"),
+                         list(self.imap), self.kind)
         src = self
         nanfn = (lambda *i: src.isnan(*i)) if self.cell.nan is not None else None
         frozen = NdArr(self.shape, Cell(self.cell.term, self.cell.dims, self.cell.nan), self.imap,
